@@ -348,8 +348,8 @@ def build_programs(spec, symbolic=True, free=None):
                 op = make_sym_op(name, ps, dagger, select)
                 op | tuple(q[m] for m in modes)
                 if name in MEAS_OPS and select is not None:
-                    for m in modes:
-                        store[m] = [select]
+                    for i, m in enumerate(modes):
+                        store[m] = [float(select[i])] if isinstance(select, list) else [select]
         progs.append(prog)
         prev = prog
     return progs
@@ -878,7 +878,7 @@ def correspondence(ctx):
 
 
 def search(ctx):
-    for fn in (globals().get("search_corpus"), globals().get("search_programs"), globals().get("search_optimize_shapes"), globals().get("search_cross"), globals().get("search_backends")):
+    for fn in (globals().get("search_corpus"), globals().get("search_programs"), globals().get("search_optimize_shapes"), globals().get("search_cross"), globals().get("search_backends"), globals().get("search_loader")):
         if fn:
             fn(ctx)
 
@@ -1138,9 +1138,35 @@ def truncate_before_param_error(spec):
                 return dict(spec, segs=segs)
             out.append(c)
             if c[0] in MEAS_OPS and len(c) > 4 and c[4] is not None:
-                for m in c[2]:
-                    store[m] = [c[4]]
+                for i, m in enumerate(c[2]):
+                    store[m] = [float(c[4][i])] if isinstance(c[4], list) else [c[4]]
     return spec
+
+
+def mzgate_zero_variant(spec):
+    """For a program run natively on the fock backend: the spec with every MZgate whose symbolic first parameter
+    evaluates to exactly 0 (in program order) given phi_in = 1e-13 instead, or None if there is no such gate."""
+    if spec.get("backend") != "fock":
+        return None
+    free = dict(spec.get("defaults", {}), **spec.get("bind", {}))
+    store, segs, hit = {}, [], False
+    for seg in spec["segs"]:
+        out = []
+        for c in seg:
+            c2 = c
+            if c[0] == "MZgate" and isinstance(c[1][0], list):
+                try:
+                    if tree_eval(c[1][0], free, store) == 0.0:
+                        c2 = [c[0], [["add", c[1][0], 1e-13]] + list(c[1][1:])] + list(c[2:])
+                        hit = True
+                except (RefParamError, ShapeError):
+                    pass
+            out.append(c2)
+            if c[0] in MEAS_OPS and len(c) > 4 and c[4] is not None:
+                for i, m in enumerate(c[2]):
+                    store[m] = [float(c[4][i])] if isinstance(c[4], list) else [c[4]]
+        segs.append(out)
+    return dict(spec, segs=segs) if hit else None
 
 
 def prog_predicate(spec):
@@ -1155,6 +1181,10 @@ def prog_predicate(spec):
         bt = run_spec(truncate_before_param_error(spec), False)
         if bt["error"] == a["error"]:
             return None
+    mz = mzgate_zero_variant(spec)
+    if mz is not None and not a["error"] and same_result(a, run_spec(mz, False)):
+        return ("apply:MZgate-symbolic-zero-p0", "MZgate whose symbolic first parameter evaluates to exactly 0 is applied natively (it is not the identity), "
+                "while the substituted MZgate(0, phi_ex) is skipped by Gate.apply; with phi_in = 1e-13 instead of 0 the substituted program agrees with the symbolic one")
     f = spec_features(spec)
     sym = "raises %s (%s)" % (a["error"], a.get("detail", "")[:120]) if a["error"] else "runs"
     sub = "raises %s (%s)" % (b["error"], b.get("detail", "")[:120]) if b["error"] else "runs"
@@ -1191,7 +1221,7 @@ def search_corpus(ctx):
             bad = prog_predicate(d["spec"])
         elif d.get("check") == "expr":
             bad = expr_predicate(d["case"])
-        elif d.get("check") in ("cross", "decomp", "history", "stale", "bind", "compile"):
+        elif d.get("check") in ("cross", "decomp", "history", "stale", "bind", "compile", "convert", "loader"):
             fn = globals().get(d["check"] + "_predicate")
             bad = fn(d) if fn else None
         ctx.case({"kind": "corpus", "file": os.path.basename(path)}, nontrivial=True, bucket="corpus")
@@ -1252,8 +1282,31 @@ def gen_arith_tree(rng, d, pool):
     return [k, gen_arith_tree(rng, d - 1, pool), gen_arith_tree(rng, rng.randint(0, d - 1), pool)]
 
 
+def gen_mmeas(rng, n, backend):
+    """A multi-mode measurement event: 2..n modes in a non-trivial order (descending, cyclic shift or random), a
+    distinct outcome per mode where the measurement allows it."""
+    k = rng.randint(2, n)
+    modes = sorted(rng.sample(range(n), k))
+    r = rng.random()
+    if r < 0.4:
+        modes = modes[::-1]
+    elif r < 0.7:
+        sh = rng.randrange(1, k)
+        modes = modes[sh:] + modes[:sh]
+    else:
+        rng.shuffle(modes)
+    if backend == "fock":
+        vals = rng.sample([0, 1, 2], k) if k <= 3 else [rng.choice([0, 1, 2]) for _ in range(k)]
+    else:
+        vals = [i % 2 for i in range(k)]
+        rng.shuffle(vals)
+    return ["mmeas", modes, [float(v) for v in vals], backend == "fock" and rng.random() < 0.5]
+
+
 def gen_history(rng):
-    n = rng.randint(2, 4)
+    multi = rng.random() < 0.5
+    backend = rng.choice(["fock", "gaussian"]) if multi else "gaussian"
+    n = (3 if backend == "fock" else rng.randint(3, 4)) if multi else rng.randint(2, 4)
     nseg = rng.choice([1, 1, 2, 2, 3])
     names = rng.sample(NAMES, rng.randint(0, 2))
     free = {nm: rng.choice([0.5, -0.75, 1.25, 0.25]) for nm in names}
@@ -1272,7 +1325,10 @@ def gen_history(rng):
             measured.add(seg[-1][1])
         for _ in range(rng.randint(1, 5)):
             r = rng.random()
-            if r < 0.4:
+            if multi and r < 0.3:
+                seg.append(gen_mmeas(rng, n, backend))
+                measured.update(seg[-1][1])
+            elif r < 0.4:
                 seg.append(["meas", rng.randrange(n), rng.choice([0.25, -0.5, 0.75, 1.0, -1.25, 0.375])])
                 measured.add(seg[-1][1])
             elif r < 0.5:
@@ -1291,7 +1347,10 @@ def gen_history(rng):
                     continue
                 seg.append(["use", t, rng.randrange(n)])
         segs.append(seg)
-    return {"n": n, "mode": mode, "free": free, "segs": segs}
+    h = {"n": n, "mode": mode, "free": free, "segs": segs}
+    if backend == "fock":
+        h["backend"] = "fock"
+    return h
 
 
 def segs_used(segs):
@@ -1326,6 +1385,16 @@ def impl_history(h):
                     ops.Coherent(0.3, 0.1) | q[e[1]]
                 elif e[0] == "reset":
                     pass
+                elif e[0] == "mmeas":
+                    # one measurement of several modes in the listed order, with a known, distinct outcome per mode
+                    if h.get("backend") == "fock":
+                        for m, v in zip(e[1], e[2]):
+                            ops.Fock(int(v)) | q[m]
+                        ops.MeasureFock(select=[int(v) for v in e[2]] if e[3] else None) | tuple(q[m] for m in e[1])
+                    else:
+                        for m, v in zip(e[1], e[2]):
+                            (ops.Coherent(4.0, 0.0) if v else ops.Vacuum()) | q[m]
+                        ops.MeasureThreshold() | tuple(q[m] for m in e[1])
                 else:
                     ops.Rgate(build_expr(e[1], prog.params, lambda k: q[k].par)) | q[e[2]]
         return prog
@@ -1334,7 +1403,8 @@ def impl_history(h):
     err = None
     fresh_caches()
     try:
-        eng = sf.Engine("gaussian")
+        eng = sf.Engine("fock", backend_options={"cutoff_dim": 4}) if h.get("backend") == "fock" else sf.Engine("gaussian")
+        np.random.seed(4321)
         progs = []
         if h["mode"] == "eager":
             for si in range(len(h["segs"])):
@@ -1357,6 +1427,8 @@ def enc_history(h):
     def enc_ev(e):
         if e[0] == "meas":
             return "EMeas [%d] [[%s]]" % (e[1], coq.coq_float(e[2]))
+        if e[0] == "mmeas":
+            return "EMeas %s %s" % (coq.coq_list(e[1], str), coq.coq_list(e[2], lambda v: "[%s]" % coq.coq_float(v)))
         if e[0] == "prep":
             return "EPrep %d" % e[1]
         if e[0] == "reset":
@@ -1377,6 +1449,9 @@ def history_predicate(d):
         for e in seg:
             if e[0] == "meas":
                 store[e[1]] = [e[2]]
+            elif e[0] == "mmeas":
+                for m, v in zip(e[1], e[2]):
+                    store[m] = [float(v)]
             elif e[0] == "reset":
                 store = {}
             elif e[0] == "use":
@@ -1412,8 +1487,9 @@ def corr_history(ctx):
         mw = [model_outcome(x) for x in m[0]]
         log, err = impl_history(h)
         nuse = sum(1 for s in h["segs"] for e in s if e[0] == "use")
-        ctx.case({"kind": "history", "history": h}, nontrivial=len(h["segs"]) > 1 or any(e[0] == "prep" for s in h["segs"] for e in s),
-                 bucket="hist-%s-%dseg" % (h["mode"], len(h["segs"])))
+        has_mm = any(e[0] == "mmeas" for s in h["segs"] for e in s)
+        ctx.case({"kind": "history", "history": h}, nontrivial=len(h["segs"]) > 1 or has_mm or any(e[0] == "prep" for s in h["segs"] for e in s),
+                 bucket="hist-%s-%dseg%s" % (h["mode"], len(h["segs"]), ("-multi-" + h.get("backend", "gaussian")) if has_mm else ""))
         # compare the implementation's log with the as-written model, up to the first error of either
         bad = None
         for i, g in enumerate(log):
@@ -1839,7 +1915,16 @@ def gen_fock_spec(rng, err=False):
     for _ in range(rng.randint(2, 5)):
         pool = [["free", nm] for nm in names] + [["meas", m] for m in store] * 2
         r = rng.random()
-        if r < 0.2:
+        if n == 2 and r < 0.12:
+            # Fock states with distinct photon numbers, counted in one two-mode measurement in either order
+            ks = rng.sample([0, 1, 2], 2)
+            order = rng.choice([[0, 1], [1, 0], [1, 0]])
+            cmds.append(["Fock", [ks[0]], [0], False, None])
+            cmds.append(["Fock", [ks[1]], [1], False, None])
+            cmds.append(["MeasureFock", [], order, False, [ks[m] for m in order]])
+            for m in order:
+                store[m] = [float(ks[m])]
+        elif r < 0.2:
             m = rng.randrange(n)
             if rng.random() < 0.5:
                 sel = round(rng.uniform(-0.8, 0.8), 3)
@@ -1945,7 +2030,7 @@ def search_backends(ctx):
         bad = prog_predicate(spec)
         ctx.case({"kind": "prog", "spec": spec}, nontrivial=f["uses_measured"] or bool(spec.get("precompile")), bucket="fock" + ("-precompiled" if spec.get("precompile") else ""))
         if bad:
-            ctx.counterexample("fock:" + bad[0], bad[1], {"check": "prog", "spec": spec})
+            ctx.counterexample(bad[0] if bad[0].startswith("apply:") else "fock:" + bad[0], bad[1], {"check": "prog", "spec": spec})
     for i in range(ctx.budget(60, 500)):
         target = ["gaussian_unitary", "passive"][i % 2]
         spec = gen_compile_spec(rng, target)
@@ -2016,3 +2101,205 @@ def search_optimize_shapes(ctx):
                     if bad:
                         ctx.counterexample("optimize-shape:%s:%s" % (family, bad[0]), "%s sequence '%s' (p = plain, m = measured parameter; dagger on %r; optimize via %s): %s"
                                            % (family, shape, list(daggers), via, bad[1]), {"check": "prog", "spec": spec})
+
+
+# ---------------------------------------------------------------------------------------
+# search S7: loaded programs.  par_convert (parameters.py) turns the symbols of a parsed Blackbird / XIR program
+# (q<k> for the outcome of mode k, anything else a free parameter) into MeasuredParameter / FreeParameter objects.
+#  (i)  par_convert directly on sympy expressions over plain symbols, registers of up to 13 modes (multi-digit indices);
+#  (ii) programs with measured parameters on up to 13 modes saved with to_blackbird / to_xir, re-loaded, and compared
+#       with the API-built program: dependency sets, classes and modes, final state (post-selected homodyne), and
+#       with the substituted program.
+# The Blackbird grammar / serialiser (library code and strawberryfields.io, property C14) restricts what can be
+# round-tripped: measured parameters in arithmetic without powers, functions or free parameters, no daggers.
+
+LOADER_MODES = 13
+
+
+def gen_convert_case(rng):
+    pool = [["free", n] for n in rng.sample(["a", "b", "c", "d", "alpha", "theta1", "x10"], rng.randint(0, 2))]
+    ks = rng.sample(range(LOADER_MODES), rng.randint(1, 3))
+    if rng.random() < 0.6:
+        # an index >= 10 together with the mode named by its first digit
+        k = rng.choice([10, 11, 12])
+        ks = [k, int(str(k)[0])] + ks[:1]
+    pool += [["meas", k] for k in dict.fromkeys(ks)]
+    for _ in range(30):
+        tree = gen_tree(rng, rng.randint(1, 3), pool, rng.random() < 0.4, 0)
+        if survives_plain(tree) and any(k == "meas" for k, _ in atoms(tree)):
+            break
+    else:
+        tree = ["add", ["meas", ks[0]], 0.5]
+    free = {a: [round(rng.uniform(-1.5, 1.5), 3), None] for k, a in atoms(tree) if k == "free"}
+    meas = {a: [rng.choice([0.25, -0.5, 0.75, 1.25, -1.0, 0.375, 1.5])] for k, a in atoms(tree) if k == "meas"}
+    vals = list({v[0] for v in meas.values()})
+    # distinct outcomes on distinct modes, and something else again on the other modes
+    allv = [0.25, -0.5, 0.75, 1.25, -1.0, 0.375, 1.5, -0.125, 0.625, -1.75, 2.0, 0.875, -0.375]
+    rng.shuffle(allv)
+    store = {str(k): [allv[k]] for k in range(LOADER_MODES)}
+    return {"check": "convert", "tree": tree, "free": free, "meas": store, "via_transform": rng.random() < 0.3}
+
+
+def plain_expr(tree):
+    import sympy
+    return build_expr(tree, lambda n: sympy.Symbol(n), lambda k: sympy.Symbol("q%d" % k))
+
+
+def survives_plain(tree):
+    import sympy
+    try:
+        e = plain_expr(tree)
+    except Exception:
+        return False
+    want = {("q%d" % a) if k == "meas" else a for k, a in atoms(tree)}
+    return isinstance(e, sympy.Basic) and {str(x) for x in e.free_symbols} == want
+
+
+def convert_predicate(c):
+    import blackbird
+    fresh_caches()
+    prog = sf.Program(LOADER_MODES)
+    e = plain_expr(c["tree"])
+    arg = blackbird.RegRefTransform(e) if (c.get("via_transform") and not any(k == "free" for k, _ in atoms(c["tree"]))) else e
+    out = sfpar.par_convert([arg, 0.5], prog)
+    conv = out[0]
+    if out[1] != 0.5:
+        return ("convert:numeric", "par_convert changed a numeric argument: %r" % (out[1],))
+    want_meas = sorted({a for k, a in atoms(c["tree"]) if k == "meas"})
+    want_free = sorted({a for k, a in atoms(c["tree"]) if k == "free"})
+    got_meas = sorted(x.regref.ind for x in conv.atoms(sfpar.MeasuredParameter))
+    got_free = sorted(x.name for x in conv.atoms(sfpar.FreeParameter))
+    if got_meas != want_meas or got_free != want_free or any(x.regref is not prog.reg_refs[x.regref.ind] for x in conv.atoms(sfpar.MeasuredParameter)):
+        return ("convert:atoms", "expression over symbols %s converted to measured parameters of modes %r and free parameters %r (expected modes %r, names %r)"
+                % (sorted(str(x) for x in e.free_symbols), got_meas, got_free, want_meas, want_free))
+    deps = sorted(r.ind for r in sfpar.par_regref_deps(conv))
+    if deps != want_meas:
+        return ("convert:deps", "par_regref_deps of the converted expression %r, expected %r" % (deps, want_meas))
+    for k, v in c["meas"].items():
+        prog.reg_refs[int(k)].val = np.array(v)
+    prog.bind_params({n: v[0] for n, v in c["free"].items()})
+    got = to_plain(sfpar.par_evaluate(conv))
+    ref = ref_eval(c["tree"], c["free"], {int(k): v for k, v in c["meas"].items()})
+    if ref[0] == "ok" and not close(got, ref[1]):
+        return ("convert:value", "converted expression evaluates to %r, the expression over the stored outcomes is %r" % (got, ref[1]))
+    return None
+
+
+LOADER_GATES = {"Xgate": 1, "Zgate": 1, "Rgate": 1, "Dgate": 1, "Sgate": 1, "BSgate": 2, "CXgate": 2}
+
+
+def gen_loader_arith(rng, pool, d):
+    """measured atoms, sums, multiples by constants and products of two different atoms: no powers (the XIR grammar
+    has none and Blackbird reads -q1**2 as (-q1)**2), which is what both grammars and sympy's printer agree on"""
+    if d <= 0:
+        if len(pool) >= 2 and rng.random() < 0.3:
+            a, b = rng.sample(pool, 2)
+            return ["mul", list(a), list(b)]
+        return list(rng.choice(pool))
+    k = rng.choice(["add", "addc", "mulc"])
+    if k == "addc":
+        return ["add", gen_loader_arith(rng, pool, d - 1), rng.choice([0.5, 0.25, 1.5])]
+    if k == "mulc":
+        return ["mul", rng.choice([2.0, 0.5, -0.25, -1.5]), gen_loader_arith(rng, pool, d - 1)]
+    return ["add", gen_loader_arith(rng, pool, d - 1), gen_loader_arith(rng, pool, rng.randint(0, d - 1))]
+
+
+def gen_loader_spec(rng):
+    n = rng.randint(11, LOADER_MODES)
+    hi = rng.sample(range(10, n), rng.randint(1, min(2, n - 10)))
+    measured = list(dict.fromkeys(hi + [int(str(k)[0]) for k in hi] + rng.sample(range(n), rng.randint(0, 2))))
+    rng.shuffle(measured)
+    sels = rng.sample([0.3, -0.7, 0.55, 1.1, -0.2, 0.85, -1.05, 0.45], len(measured))
+    cmds = []
+    for m in range(0, n, 3):
+        cmds.append(["Sgate", [round(rng.uniform(0.2, 0.5), 3), 0.0], [m], False, None])
+    if (n - 1) % 3:
+        cmds.append(["Sgate", [0.25, 0.0], [n - 1], False, None])     # the loader sizes the register by the largest mode used
+    cmds.append(["BSgate", [0.5, 0.2], [hi[0], int(str(hi[0])[0])], False, None])
+    for m, sel in zip(measured, sels):
+        cmds.append(["MeasureHomodyne", [0.0], [m], False, sel])
+    pool = [["meas", m] for m in measured]
+    targets = [m for m in range(n) if m not in measured]
+    for _ in range(rng.randint(2, 5)):
+        name = rng.choice(sorted(LOADER_GATES))
+        nm_ = LOADER_GATES[name]
+        first = gen_loader_arith(rng, pool, rng.randint(0, 2))
+        if name in ("Sgate", "Dgate"):
+            first = ["mul", 0.3, first]
+        kinds = ALL_KINDS[name][1]
+        trees = [first] + [round(rng.uniform(-1, 1), 3) for _ in kinds[1:]]
+        cmds.append([name, trees, rng.sample(targets, nm_), False, None])
+    return {"check": "loader", "format": "xir" if rng.random() < 0.1 else "blackbird", "spec": {"n": n, "segs": [cmds], "bind": {}, "defaults": {}}}
+
+
+def load_roundtrip(prog, fmt):
+    from strawberryfields import io
+    if fmt == "blackbird":
+        return io.loads(io.to_blackbird(prog).serialize())
+    import xir
+    return io.to_program(xir.parse_script(io.to_xir(prog).serialize()))
+
+
+def prog_fingerprint(prog):
+    return [(c.op.__class__.__name__, [r.ind for r in c.reg], sorted(r.ind for r in c.op.measurement_deps)) for c in prog.circuit]
+
+
+def loader_predicate(d):
+    spec, fmt = d["spec"], d["format"]
+    fresh_caches()
+    prog = build_programs(spec, True)[0]
+    try:
+        loaded = load_roundtrip(prog, fmt)
+    except Exception as e:
+        return ("unsupported", "%s: %s" % (type(e).__name__, str(e)[:100]))
+    fa, fb = prog_fingerprint(prog), prog_fingerprint(loaded)
+    if fmt == "xir" and not any(x[2] for x in fb) and any(x[2] for x in fa):
+        return ("unsupported", "to_xir wrote no measured parameters")
+    if fa != fb:
+        diff = [(x, y) for x, y in zip(fa, fb) if x != y][:3]
+        return ("loader:%s:deps" % fmt, "the re-loaded program differs from the saved one in (class, modes, measured dependencies): %r" % (diff,))
+
+    def run(p):
+        np.random.seed(7)
+        st = sf.Engine("gaussian").run(p).state
+        return np.array(st.means()), np.array(st.cov())
+    try:
+        a = run(loaded)
+    except Exception as e:
+        return ("loader:%s:run" % fmt, "the re-loaded program raises %s: %s" % (type(e).__name__, str(e)[:120]))
+    b = run_spec(spec, False)
+    if b["error"] or not all(np.allclose(x, y, atol=1e-6, rtol=0) for x, y in zip(a, b["state"])):
+        return ("loader:%s:state" % fmt, "the re-loaded program does not prepare the state of the program with the outcomes substituted")
+    return None
+
+
+def search_loader(ctx):
+    rng = ctx.rng
+    for _ in range(ctx.budget(120, 1200)):
+        c = gen_convert_case(rng)
+        bad = convert_predicate(c)
+        ats = atoms(c["tree"])
+        ctx.case(c, nontrivial=any(k == "meas" and a >= 10 for k, a in ats), bucket="convert")
+        if bad:
+            ctx.counterexample(bad[0], bad[1], c)
+    for _ in range(ctx.budget(25, 200)):
+        d = gen_loader_spec(rng)
+        bad = loader_predicate(d)
+        if bad and bad[0] == "unsupported":
+            ctx.hist["loader-%s-unsupported" % d["format"]] = ctx.hist.get("loader-%s-unsupported" % d["format"], 0) + 1
+            continue
+        ctx.case(d, nontrivial=True, bucket="loader-" + d["format"])
+        if bad:
+            ctx.counterexample(bad[0], bad[1], d)
+
+
+def replay_convert(ctx, d):
+    bad = convert_predicate(d)
+    print("predicate:", bad)
+    return bad is not None
+
+
+def replay_loader(ctx, d):
+    bad = loader_predicate(d)
+    print("predicate:", bad)
+    return bad is not None and bad[0] != "unsupported"
